@@ -32,8 +32,10 @@ def run_property(prop: str, repo: Path, tier: str, seed: int, write_evidence: bo
             if str(repo.resolve()) == "/repo" or os.environ.get("PGSTAT_SELFVAL") == "1":
                 from . import selfval
                 res = selfval.run_all([prop])
-                summ = selfval.summarize(res)
+                cross = selfval.run_cross_benign(prop)
+                summ = selfval.summarize(res + cross)
                 extra["selfval"] = {k: v for k, v in summ.items() if k != "failures"}
+                extra["selfval"]["cross_property_benign_rewrites"] = len(cross)
                 extra["selfval"]["variants_run"] = [
                     {"id": r["id"], "kind": r["kind"], "expected_rule": r.get("rule", ""), "status": r["status"]} for r in res]
                 for fl in summ["failures"]:
